@@ -73,13 +73,19 @@ func (l *zzListener) ServeMessages(opened func(socket.Messages) (socket.Context,
 		if err != nil {
 			continue
 		}
-		vGo("netpoll-worker", func() {
-			for {
-				if err := serve(ctx); err != nil {
-					return
+		nw := l.workers
+		if nw < 1 {
+			nw = 1
+		}
+		for k := 0; k < nw; k++ {
+			vGo("netpoll-worker", func() {
+				for {
+					if err := serve(ctx); err != nil {
+						return
+					}
 				}
-			}
-		})
+			})
+		}
 	}
 	<-l.closedCh
 	return errZZListenerClosed
